@@ -1724,6 +1724,37 @@ func ruleFramePair(r *Run) {
 				return true
 			})
 		}
+		// … and the stored cancel is only ever assigned, tested against nil or called on the spot: handed on as a
+		// function value (to a context callback, a timer, a goroutine) it runs at another time, possibly twice, and
+		// cancels whatever holds its slot by then
+		for _, fn := range r.P.All {
+			if fn.Pkg.PkgPath != pkgWS || fn.Body == nil || fn.Decl == nil {
+				continue
+			}
+			pm := buildParents(fn.Decl)
+			ast.Inspect(fn.Body, func(nd ast.Node) bool {
+				se, ok := nd.(*ast.SelectorExpr)
+				if !ok || r.P.selField(fn.Info(), se) != stopField {
+					return true
+				}
+				okUse := false
+				switch p := pm[se].(type) {
+				case *ast.CallExpr:
+					okUse = ast.Unparen(p.Fun) == ast.Expr(se)
+				case *ast.AssignStmt:
+					for _, l := range p.Lhs {
+						if ast.Unparen(l) == ast.Expr(se) {
+							okUse = true
+						}
+					}
+				case *ast.BinaryExpr:
+					okUse = p.Op == token.EQL || p.Op == token.NEQ
+				}
+				r.Check("E6", fn.Name+":frame-cancel-not-handed-on", okUse, se.Pos(),
+					"%s hands the connection's stored frame cancel on as a function value: it is then run at another time (and possibly again), when its slot may belong to another participant, whose pose and component updates stop being flushed", fn.Name)
+				return true
+			})
+		}
 		r.Floor("E6", "calls of the stored frame cancel", n, 1)
 		// the session's frame worker is stopped only where the session ends: by the store when it unregisters
 		// the session, and by the leave function for a session it found empty. Anything else that can stop it
